@@ -135,8 +135,8 @@ func (c *Ctx) stageTwice(refs map[refKey]*Ref, keys []refKey) {
 	var ks []refKey
 	rng := stream(c.Seed, "twice")
 	for _, k := range keys {
-		if c.Tier == "quick" && rng.Intn(3) != 0 {
-			continue
+		if c.Tier == "quick" && rng.Intn(3) != 0 && refs[k].Sc.Family != "hyph" && refs[k].Sc.Family != "feat" {
+			continue // (the families whose documents depend on language and locale data are always re-run)
 		}
 		sp := cloneSpec(refs[k].Spec)
 		sp.ID = "twice/" + k.Scenario + "/" + k.Cfg
